@@ -49,6 +49,12 @@ type Ctx struct {
 	prefix  []int
 	lenient bool // shrinking: out-of-range / missing choices become 0, shard filter off
 	prevPts []point
+	// keyed (lenient replay only): the choice for the k-th point labelled L is
+	// keyed[L][k] (0 when absent or out of range). Replaying by (label,
+	// occurrence) instead of by position keeps a deviation attached to "its"
+	// decision when an earlier choice changes the shape of the case.
+	keyed map[string][]int
+	occ   map[string]int
 
 	bound    int
 	shardIdx int
@@ -86,7 +92,13 @@ func (c *Ctx) choose(label string, n int, k pointKind) int {
 	}
 	i := len(c.points)
 	var ch int
-	if i < len(c.prefix) {
+	if c.keyed != nil {
+		k := c.occ[label]
+		c.occ[label] = k + 1
+		if vs := c.keyed[label]; k < len(vs) && vs[k] >= 0 && vs[k] < n {
+			ch = vs[k]
+		}
+	} else if i < len(c.prefix) {
 		ch = c.prefix[i]
 		if c.lenient {
 			if ch >= n || ch < 0 {
@@ -196,10 +208,11 @@ type Violation struct {
 	Labels   []string `json:"labels"`
 	Case     string   `json:"case"`
 	// Witness is the rendered case of the shrunk choice vector.
-	Witness        string  `json:"witness"`
-	WitnessChoices []int   `json:"witness_choices"`
-	WitnessFailure Failure `json:"witness_failure"`
-	Count          int64   `json:"count"` // executions that shrank to this witness
+	Witness        string   `json:"witness"`
+	WitnessChoices []int    `json:"witness_choices"`
+	WitnessLabels  []string `json:"witness_labels"`
+	WitnessFailure Failure  `json:"witness_failure"`
+	Count          int64    `json:"count"` // executions that shrank to this witness
 }
 
 // Config bounds one exploration.
@@ -395,10 +408,10 @@ func confirmAndShrink(body func(*Ctx), c *Ctx, shr *shrinker, doShrink bool, res
 		v.Labels = append(v.Labels, p.label)
 	}
 	if doShrink {
-		wc, wf, wcase := shr.shrink(c.choices, c.fail)
-		v.WitnessChoices, v.WitnessFailure, v.Witness = wc, *wf, wcase
+		wl, wc, wf, wcase := shr.shrink(v.Labels, c.choices, c.fail)
+		v.WitnessLabels, v.WitnessChoices, v.WitnessFailure, v.Witness = wl, wc, *wf, wcase
 	} else {
-		v.WitnessChoices, v.WitnessFailure, v.Witness = v.Choices, v.Failure, v.Case
+		v.WitnessLabels, v.WitnessChoices, v.WitnessFailure, v.Witness = v.Labels, v.Choices, v.Failure, v.Case
 	}
 	res.ShrinkExecs = shr.execs
 	return v
@@ -423,75 +436,110 @@ type shrinker struct {
 	tier  string
 }
 
-func vecKey(v []int) string {
+func keyedOf(labels []string, choices []int) map[string][]int {
+	m := map[string][]int{}
+	for i, l := range labels {
+		m[l] = append(m[l], choices[i])
+	}
+	return m
+}
+
+func vecKey(labels []string, v []int) string {
 	var sb strings.Builder
-	for _, x := range v {
-		fmt.Fprintf(&sb, "%d,", x)
+	for i, x := range v {
+		if x != 0 {
+			fmt.Fprintf(&sb, "%s#%d=%d,", labels[i], i, x)
+		}
 	}
 	return sb.String()
 }
 
-// try runs the body leniently on v and returns the actual vector, failure and case.
-func (s *shrinker) try(v []int) ([]int, *Failure, string) {
-	c := &Ctx{prefix: v, lenient: true, Tier: s.tier}
+// try runs the body in keyed-lenient mode and returns what it actually did.
+func (s *shrinker) try(labels []string, v []int) (c *Ctx, ok bool) {
+	c = &Ctx{lenient: true, keyed: keyedOf(labels, v), occ: map[string]int{}, Tier: s.tier}
 	s.execs++
 	out := runOnce(s.body, c)
-	if out.aborted {
-		return nil, nil, ""
-	}
-	return c.choices, c.fail, c.caseString()
+	return c, !out.aborted
 }
 
-func lexLess(a, b []int) bool {
-	if len(a) != len(b) {
-		return len(a) < len(b)
-	}
-	for i := range a {
-		if a[i] != b[i] {
-			return a[i] < b[i]
+func nonzeroDevs(c *Ctx) int {
+	n := 0
+	for i, p := range c.points {
+		if p.kind == kDev && c.choices[i] != 0 {
+			n++
 		}
 	}
-	return false
+	return n
 }
 
-func (s *shrinker) shrink(v []int, f *Failure) ([]int, *Failure, string) {
-	cur := append([]int{}, v...)
-	curF := f
-	_, _, curCase := s.try(cur)
+// simpler: fewer deviations first, then lexicographically smaller choices
+// (a proper prefix is smaller).
+func simpler(a, b *Ctx) bool {
+	da, db := nonzeroDevs(a), nonzeroDevs(b)
+	if da != db {
+		return da < db
+	}
+	for i := 0; i < len(a.choices) && i < len(b.choices); i++ {
+		if a.choices[i] != b.choices[i] {
+			return a.choices[i] < b.choices[i]
+		}
+	}
+	return len(a.choices) < len(b.choices)
+}
+
+func labelsOf(c *Ctx) []string {
+	out := make([]string, len(c.points))
+	for i, p := range c.points {
+		out[i] = p.label
+	}
+	return out
+}
+
+func (s *shrinker) shrink(labels []string, v []int, f *Failure) ([]string, []int, *Failure, string) {
+	cur, ok := s.try(labels, v)
+	if !ok || !sameFailure(cur.fail, f) {
+		// keyed replay does not reproduce it (should not happen): keep the original
+		c := &Ctx{prefix: v, lenient: true, Tier: s.tier}
+		runOnce(s.body, c)
+		return labels, v, f, c.caseString()
+	}
 	improved := true
 	for rounds := 0; improved && rounds < 50; rounds++ {
 		improved = false
-		for i := 0; i < len(cur); i++ {
-			if cur[i] == 0 {
+		for i := 0; i < len(cur.choices); i++ {
+			if cur.choices[i] == 0 {
 				continue
 			}
-			for alt := 0; alt < cur[i]; alt++ {
-				cand := append([]int{}, cur...)
+			ls := labelsOf(cur)
+			for alt := 0; alt < cur.choices[i]; alt++ {
+				cand := append([]int{}, cur.choices...)
 				cand[i] = alt
-				k := vecKey(cand)
-				var nf *Failure
-				var nv []int
-				var ncase string
-				if mf, ok := s.memo[k]; ok && !sameFailure(mf, f) {
+				k := vecKey(ls, cand)
+				if mf, seen := s.memo[k]; seen && !sameFailure(mf, f) {
 					continue
 				}
-				nv, nf, ncase = s.try(cand)
-				s.memo[k] = nf
-				if nv != nil && sameFailure(nf, f) && lexLess(nv, cur) {
-					cur, curF, curCase = nv, nf, ncase
+				nc, ok := s.try(ls, cand)
+				if !ok {
+					continue
+				}
+				s.memo[k] = nc.fail
+				if sameFailure(nc.fail, f) && simpler(nc, cur) {
+					cur = nc
 					improved = true
 					break
 				}
 			}
 		}
 	}
-	// strip trailing zeros for a stable rendering of the vector
-	return cur, curF, curCase
+	return labelsOf(cur), cur.choices, cur.fail, cur.caseString()
 }
 
 // Replay runs one choice vector (strictly) and returns failure and case.
-func Replay(body func(*Ctx), choices []int, tier string) (*Failure, string, []int) {
+func Replay(body func(*Ctx), labels []string, choices []int, tier string) (*Failure, string, []int) {
 	c := &Ctx{prefix: choices, lenient: true, Tier: tier}
+	if len(labels) == len(choices) && len(labels) > 0 {
+		c.keyed, c.occ = keyedOf(labels, choices), map[string]int{}
+	}
 	runOnce(body, c)
 	return c.fail, c.caseString(), c.choices
 }
